@@ -38,5 +38,5 @@ def run(ctx):
                 "The returned edge must denote the operation for all values of atoms and decision variables, the new "
                 "node must respect the variable order, and a cache entry must be valid for its key.")
     n = estep.run(ctx, F, kinds=("zbdd",))
-    ctx.floor("E-TABLE.step", "situations of the recursive step (set operations)", n, 20)
-    ctx.not_decided = "subset0/subset1/change recursion, apply_ite of the Boolean view, consistency after add_vars"
+    ctx.floor("E-TABLE.step", "situations of the recursive step (set operations, subset0/subset1/change, apply_ite)", n, 90)
+    ctx.not_decided = "restrict of the Boolean view, make_node, consistency after add_vars"
